@@ -177,11 +177,14 @@ class Folder:
                         raise Unfoldable(f'{n.func.attr}: {e}')
                     return tuple(r) if isinstance(r, list) else r
             if isinstance(n.func, ast.Name) and n.func.id in PURE_BUILTINS and n.func.id not in self.env_nodes.get(mn, {}):
+                if any(isinstance(a, ast.Starred) for a in n.args) or any(k.arg is None for k in n.keywords):
+                    raise Unfoldable('starred argument')
                 args = [self.ev(mn, a, local) for a in n.args]
-                if any(isinstance(x, Opaque) for x in args):
+                kw = {k.arg: self.ev(mn, k.value, local) for k in n.keywords}
+                if any(isinstance(x, Opaque) for x in list(args) + list(kw.values())):
                     raise Unfoldable('opaque argument')
                 try:
-                    r = PURE_BUILTINS[n.func.id](*args)
+                    r = PURE_BUILTINS[n.func.id](*args, **kw)
                 except Exception as e:  # noqa: BLE001
                     raise Unfoldable(f'{n.func.id}: {e}')
                 return tuple(r) if isinstance(r, list) else r
